@@ -71,6 +71,34 @@ def cases(L, tier, seed):
         yield RT.ImpliedTimescales(), TS.implied_timescales, dict(assigns=a.copy(), lag_times=[1, 2], method=B.transpose, n_times=2, trim=True), ('timescales', a.tolist())
 
 
+def cases_extra(L, tier, seed):
+    """scales the small cases never reach: a state with a tiny population (text round trip of the populations) and
+    matrices beyond the dense / sparse eigensolver switch-over (1000 states)"""
+    rnd = random.Random(seed)
+    # a long trajectory with one short excursion to a third state: its population is ~1e-4 and not a short decimal
+    for n_fr, lag in ((30011, 1), (7001, 2)):
+        a = np.array([[rnd.choice([0, 0, 1]) for _ in range(n_fr)]])
+        a[0, n_fr // 2: n_fr // 2 + 3] = [2, 2, 0]
+        for method in (B.normalize, B.transpose):
+            est = M.MSM(lag_time=lag, method=method, trim=False, sliding_window=True, max_n_states=None)
+            est.fit(a)
+            yield RT.SaveLoad(), save_load, dict(m=est), ('save-load-rare-state', n_fr, lag, method.__name__)
+    # birth-death chains with a non-uniform stationary distribution, below and above 1000 states, dense and sparse
+    for n in (400, 1000):
+        up = 0.2 + 0.1 * np.sin(np.arange(n) / 7.0)
+        dn = 0.25 + 0.1 * np.cos(np.arange(n) / 5.0)
+        T = np.zeros((n, n))
+        for i in range(n):
+            if i + 1 < n:
+                T[i, i + 1] = up[i]
+            if i > 0:
+                T[i, i - 1] = dn[i]
+            T[i, i] = 1 - T[i].sum()
+        for TT, nm in ((scipy.sparse.csr_matrix(T), 'csr'), (T, 'dense')):
+            yield RT.Eigenspectrum(), (lambda T, left, n_eigs=3: TM.eigenspectrum(T, n_eigs=n_eigs, left=left)), dict(T=TT, left=True), ('eigenspectrum-large', n, nm)
+            yield RT.EqProbs(), TM.eq_probs, dict(T=TT), ('eq_probs-large', n, nm)
+
+
 def replay(L, p):
     m = p['inputs']
     o = M.MSM.__new__(M.MSM)
@@ -81,4 +109,9 @@ def replay(L, p):
 
 
 if __name__ == '__main__':
+    _small = cases
+
+    def cases(L, tier, seed):
+        yield from _small(L, tier, seed)
+        yield from cases_extra(L, tier, seed)
     bounded.main(cases, replay, 'assignment sets 2 x 12..20 frames over 3-4 states; lags 1..3; 3 builders; trim/sliding/state-count options; spectral clauses on fitted ergodic matrices; save/load')
